@@ -57,6 +57,9 @@ checks = {
  "C13": dict(harness="hcore", design="§6 C13",
    text="Whole-core simulation of workflows with bind/connect declarations (role paths, aliases, explicit and dangling targets, tcp/ipc, transports); the oracle relates the CONFIGURE arguments received by the simulated executors to the ports the simulated master saw allocated: outbound address = binder's host + binder's bound port, transport of the inbound side, invalid configurations rejected.",
    note='simmesos/simconsul are models; one OS process per run; violations are confirmed by replay in a fresh process.'),
+ "C15": dict(harness="hload", design="§6 C15",
+   text="Seeded simulation of the real workflow template processing: a generated template is loaded sequentially and under drawn settings of the three concurrency switches, each load under a seeded schedule of the per-child goroutines with race points on captured variables; the resulting trees are compared with an independent reference expansion (pruning, emptied aggregators, one child per range element in order) and with each other; an injected template error must fail every load.",
+   note="Template language subset generated by the harness; fake repository; no include roles."),
 }
 
 na = {
